@@ -14,7 +14,7 @@ from .common import BUILD, CPU0, NCPU, REPO, VERIF, base_seed, finish, log, matc
 
 QUICK_S = 45
 THOROUGH_S = 15 * 60
-HANG_S = 90
+HANG_S = 300
 
 
 VARIANT_BUILDS = {"btree_seq": ("btree", ["--out", "btree_seq", "-fno-openmp"])}
@@ -263,6 +263,9 @@ def minimise_and_gate(prop, harness, exe, tier, fail, tmpdir):
     # gate 1: the same seed fails the same way, twice, in fresh processes
     a = run_single(exe, seed, tier, fo, emit_workload=wl_path, emit_decisions=dec_path)
     b = run_single(exe, seed, tier, fo)
+    if cls == "hang" and a.get("ok") and b.get("ok"):
+        # the watchdog killed a worker that was merely slow (loaded machine, large workload): not a verdict of any kind
+        return None, None
     if a.get("ok") or b.get("ok") or a.get("cls") != cls or b.get("cls") != cls or a.get("hash") != b.get("hash"):
         return None, "seed %d: violation class %s not reproducible (got %s/%s hash %s/%s)" % (seed, cls, a.get("cls"), b.get("cls"), a.get("hash"), b.get("hash"))
     if fo == -1:
@@ -525,6 +528,7 @@ def check(prop, harness_specs, tier, assumptions, expected_probes=()):
         if key not in byclass or (r.get("nops", 1 << 30), r["seed"]) < (byclass[key].get("nops", 1 << 30), byclass[key]["seed"]):
             byclass[key] = r
     reported = 0
+    slow_killed = []
     for (hname, cls), r in sorted(byclass.items()):
         kf = match_known(prop, cls, r.get("msg", ""), hname)
         if kf:
@@ -537,8 +541,10 @@ def check(prop, harness_specs, tier, assumptions, expected_probes=()):
             violations.append(path)
             reported += 1
             log("violation: %s %s seed=%d: %s" % (hname, cls, r["seed"], r.get("msg", "")))
-        else:
+        elif mf:
             faults_m.append(mf)
+        else:
+            slow_killed.append(r["seed"])
     # written-out samples: the workload and the first scheduler decisions of a few explored runs
     written = []
     for name, flags, share in harness_specs:
@@ -557,7 +563,7 @@ def check(prop, harness_specs, tier, assumptions, expected_probes=()):
     wall = time.time() - t0
     cov = summarise(all_results, [h[0] for h in harness_specs], tier, wall, build_s,
                     {"runs_per_harness": per, "failing_runs": len(fails), "failure_classes": sorted(set(r["cls"] for r in fails)),
-                     "regression_replays_run": regress_run})
+                     "regression_replays_run": regress_run, "slow_runs_killed_by_watchdog_but_passing_when_rerun": slow_killed})
     dead = [p for p in expected_probes if cov["reach_counters"].get(p, {}).get("hits", 0) == 0]
     cov["rare_branch_probes_never_hit"] = dead
     if dead and tier == "thorough" and not violations:
